@@ -1430,7 +1430,14 @@ class FE:
                     s.em.cookie_structs[nm] = (ct, k)
                     s.lines.append('__CPROVER_assert((uint64_t)%s <= %dULL, "modelling bound: variable-size allocation within --alloc-cap");' % (s.V(szt, szv), 8 + k * esz))
                     return 'sizeof(struct %s)' % nm
-        for u in s.cast_users.get(ins['res'], []) + s.store_elem.get(ins['res'], []):
+        def rank(u):
+            # prefer the struct type that fills the block exactly (a node viewed through its header fields first would otherwise become uint16_t[n]), then structs, then pointers
+            t2 = s.res(u['t2'])
+            if not isinstance(t2, TPtr): return 9
+            ret = s.res(t2.to)
+            if isinstance(ret, TStruct): return 0 if (isinstance(szv, VInt) and s.em.size_align(t2.to)[0] == szv.v) else 1
+            return 2 if isinstance(ret, TPtr) else 3
+        for u in sorted(s.cast_users.get(ins['res'], []) + s.store_elem.get(ins['res'], []), key=rank):
             t2 = s.res(u['t2'])
             if not isinstance(t2, TPtr): continue
             et = t2.to; ret = s.res(et)
@@ -1674,7 +1681,7 @@ class FE:
                     # for every symbolic length and which turns pointer arrays into byte expressions
                     out.append('  __CPROVER_assert(n_%s %% %d == 0, "translator: typed %s length is a multiple of the element size");' % (k, esz, 'memmove' if mv else 'memcpy'))
                     if mv:
-                        out.append('  if ((uintptr_t)d_%s <= (uintptr_t)s_%s) { for (uint64_t i_ = 0; i_ < n_%s / %d; ++i_) { %s* dp_ = d_%s + i_; const %s* sp_ = s_%s + i_; *dp_ = *sp_; } }' % (k, k, k, esz, ct, k, ct, k))
+                        out.append('  if (VERIF_MOVE_FWD(d_%s, s_%s)) { for (uint64_t i_ = 0; i_ < n_%s / %d; ++i_) { %s* dp_ = d_%s + i_; const %s* sp_ = s_%s + i_; *dp_ = *sp_; } }' % (k, k, k, esz, ct, k, ct, k))
                         out.append('  else { for (uint64_t i_ = n_%s / %d; i_ > 0; --i_) { %s* dp_ = d_%s + (i_ - 1); const %s* sp_ = s_%s + (i_ - 1); *dp_ = *sp_; } } }' % (k, esz, ct, k, ct, k))
                     else:
                         out.append('  for (uint64_t i_ = 0; i_ < n_%s / %d; ++i_) { %s* dp_ = d_%s + i_; const %s* sp_ = s_%s + i_; *dp_ = *sp_; } }' % (k, esz, ct, k, ct, k))
@@ -1682,7 +1689,7 @@ class FE:
                     k = s.tmp(); mv = 'memmove' in n
                     out.append('{ uint64_t n_%s = %s; uint8_t* d_%s = (uint8_t*)%s; const uint8_t* s_%s = (const uint8_t*)%s;' % (k, A[2], k, A[0], k, A[1]))
                     if mv:
-                        out.append('  if ((uintptr_t)d_%s <= (uintptr_t)s_%s) { for (uint64_t i_ = 0; i_ < n_%s; ++i_) { uint8_t* dp_ = d_%s + i_; const uint8_t* sp_ = s_%s + i_; *dp_ = *sp_; } }' % (k, k, k, k, k))
+                        out.append('  if (VERIF_MOVE_FWD(d_%s, s_%s)) { for (uint64_t i_ = 0; i_ < n_%s; ++i_) { uint8_t* dp_ = d_%s + i_; const uint8_t* sp_ = s_%s + i_; *dp_ = *sp_; } }' % (k, k, k, k, k))
                         out.append('  else { for (uint64_t i_ = n_%s; i_ > 0; --i_) { uint8_t* dp_ = d_%s + (i_ - 1); const uint8_t* sp_ = s_%s + (i_ - 1); *dp_ = *sp_; } } }' % (k, k, k))
                     else:
                         out.append('  for (uint64_t i_ = 0; i_ < n_%s; ++i_) { uint8_t* dp_ = d_%s + i_; const uint8_t* sp_ = s_%s + i_; *dp_ = *sp_; } }' % (k, k, k))
@@ -1858,6 +1865,7 @@ PRELUDE = r'''
 extern void verif_gcc_assert(int c, const char* m);
 #define __CPROVER_assert(c, m) verif_gcc_assert((c), (m))
 extern void __CPROVER_assume(int c);
+#define VERIF_MOVE_FWD(d, s) ((uintptr_t)(d) <= (uintptr_t)(s))
 #define VERIF_UBV(n) uint64_t
 #define VERIF_SBV(n) int64_t
 #define VERIF_UBVW(n) unsigned __int128
@@ -1865,6 +1873,8 @@ extern void __CPROVER_assume(int c);
 uint8_t nondet_u8(void); uint16_t nondet_u16(void); uint32_t nondet_u32(void); uint64_t nondet_u64(void);
 void verif_observe(uint64_t v);
 #else
+/* memmove direction: decided on the offsets inside the object (constant for concrete pointers; addresses are symbolic for CBMC). For different objects either direction is right. */
+#define VERIF_MOVE_FWD(d, s) (__CPROVER_POINTER_OFFSET(d) <= __CPROVER_POINTER_OFFSET(s))
 #define VERIF_UBV(n) unsigned __CPROVER_bitvector[n]
 #define VERIF_SBV(n) signed __CPROVER_bitvector[n]
 #define VERIF_UBVW(n) unsigned __CPROVER_bitvector[n]
@@ -1880,7 +1890,7 @@ static inline void verif_observe(uint64_t v) { (void)v; }
 int verif_exc = 0; void* verif_exc_obj = 0; const void* verif_exc_type = 0;
 static inline void verif_memcpy(uint8_t* d, const uint8_t* s, uint64_t n) { for (uint64_t i = 0; i < n; ++i) d[i] = s[i]; }
 static inline void verif_memmove(uint8_t* d, const uint8_t* s, uint64_t n) {
-  if ((uintptr_t)d <= (uintptr_t)s) { for (uint64_t i = 0; i < n; ++i) d[i] = s[i]; }
+  if (VERIF_MOVE_FWD(d, s)) { for (uint64_t i = 0; i < n; ++i) d[i] = s[i]; }
   else { for (uint64_t i = n; i > 0; --i) d[i - 1] = s[i - 1]; } }
 static inline void verif_memset(uint8_t* d, uint8_t c, uint64_t n) { for (uint64_t i = 0; i < n; ++i) d[i] = c; }
 /* own C-library string kernels (CBMC 6 ships no memchr body; the others are kept explicit so that their loops are bounded like any other loop) */
